@@ -15,7 +15,8 @@ Init == ExInit(<<0, 0>>, <<0, 0>>) /\ l = 1
 TReset ==
   /\ IsEvent("Reset")
   /\ tmpl' = EmptyFn /\ seq' = ev.seq0 /\ dom' = ev.dom /\ okRecs' = ev.seq0
-  /\ failAdv' = 0 /\ nmsg' = 0 /\ open' = TRUE
+  /\ failAdv' = 0 /\ nmsg' = 0 /\ open' = TRUE /\ nextTid' = 255
+  /\ jsonMode' = (IF Has(ev, "json") THEN ev.json ELSE FALSE)
 
 \* C02: the independent parser reads the same thing back from the bytes on the wire
 WellFormed(s, w) ==
@@ -42,7 +43,7 @@ Transmitted(s) == /\ ~ev.err
                   /\ WellFormed(s, ev.wire)
 
 TSend ==
-  /\ IsEvent("Send")
+  /\ IsEvent("Send") /\ ~jsonMode
   /\ LET s == ev.set IN
        \/ s.stype = "undef" /\ SendUndefined /\ Quiet /\ ev.ret = 0
        \/ SendTemplateOK(s) /\ Transmitted(s)
@@ -51,11 +52,25 @@ TSend ==
        \/ SendDataOK(s) /\ Transmitted(s)
        \/ SendDataFailsLate(s) /\ Quiet
 
+\* JSON-record mode: ev.docs = the documents read back from the peer (field name -> text of the value),
+\* ev.want = the same as produced by the harness from the values it generated
+TJSend ==
+  /\ IsEvent("Send") /\ jsonMode
+  /\ LET s == ev.set IN
+       \/ s.stype = "undef" /\ SendUndefined /\ ev.err
+       \/ SendJSONTemplate(s) /\ ~ev.err /\ ev.ret = 0 /\ ev.docs = << >>
+       \/ SendJSONInsane(s) /\ ev.err /\ ev.docs = << >>
+       \/ /\ SendJSONData(s) /\ ~ev.err
+          /\ Len(ev.docs) = Len(s.recs)                         \* one document per record, in order
+          /\ \A i \in DOMAIN ev.docs : ev.docs[i] = ev.want[i]
+          /\ ev.ret = ev.nbytes                                 \* reported byte count = bytes at the peer
+TNewTid == IsEvent("NewTid") /\ NewTemplateID /\ ev.id = nextTid'
+
 TClose == IsEvent("Close") /\ Close
 
 \* nothing but the logged messages ever arrived at the peer
 TQuiesce == IsEvent("Quiesce") /\ ev.extra = << >> /\ UNCHANGED exvars
 
-Next == TReset \/ TSend \/ TClose \/ TQuiesce
+Next == TReset \/ TSend \/ TJSend \/ TNewTid \/ TClose \/ TQuiesce
 Spec == Init /\ [][Next]_vars
 =============================================================================
